@@ -612,7 +612,7 @@ class Interp:
                 if pol.loop_mode == "widen" and bi in li:
                     wk = (frame.fid, bi)
                     if wk in path.widened:
-                        path.events.append(("loophead", bi, body["path"], frame.fid, arrive_state, None))
+                        path.events.append(("loophead", bi, body["path"], frame.fid, arrive_state, None, self._enclosing(body, bi)))
                         path.status, path.note = "loop-pruned", "bb%d of %s" % (bi, body["path"])
                         return []
                     path.widened.add(wk)
@@ -633,7 +633,7 @@ class Interp:
                     return []
             if is_head:
                 start_state = {L: frame.locals[L] for L in (arrive_state or {}) if L in frame.locals}
-                path.events.append(("loophead", bi, body["path"], frame.fid, arrive_state, start_state))
+                path.events.append(("loophead", bi, body["path"], frame.fid, arrive_state, start_state, self._enclosing(body, bi)))
             blk = body["blocks"][bi]
             for st in blk["stmts"]:
                 if st["k"] == "assign":
@@ -751,6 +751,11 @@ class Interp:
 
     def _refine(self, path, d, label):
         pass
+
+    def _enclosing(self, body, header):
+        """headers of the loops that contain the loop of `header`"""
+        li = self._loop_info(body)
+        return tuple(sorted(h for h, (blocks, _) in li.items() if h != header and header in blocks))
 
     def _loop_info(self, body):
         """header -> (blocks of the natural loop, locals assigned anywhere inside it)."""
